@@ -11,7 +11,10 @@ SPEC = {'level': 'exploration',
                         'victim:just-outside-quota:txtime': 0.015, 'victim:just-outside-quota:blocktime': 0.015},
                 rule='candidate sets of 0-130 peers with dense ties; half the cases plant a most-evictable victim whose rank in one category is exactly at / '
                      'just outside the quota; non-trivial = somebody selected from >= 29 candidates'),
-            gen('vh_c59', 'up_node_eviction', 60000, 1000000, rule="upstream fuzz target 'node_eviction' (selected id is one of the candidates); supplementary")]}
+            gen('vh_c59', 'up_node_eviction', 60000, 1000000, rule="upstream fuzz target 'node_eviction' (selected id is one of the candidates); supplementary"),
+        # coverage-guided libFuzzer campaign on the same target (thorough tier only; fz tree = g++ trace-pc + covshim)
+        fuzz('vh_c59', 'c59_eviction', 300, max_len=40),
+    ]}
 
 META = {'level_text': 'Generated candidate sets (1.2M per quick run, 0-130 peers, attributes from small value sets so that ties sit on every quota boundary; half of the '
                'sets contain a planted most-evictable peer ranked exactly at or just outside one protection quota, with rivals that may be noban/outbound); '
